@@ -398,6 +398,9 @@ RAISING_EXT = {
     "os.listdir": "OSError", "os.path.getatime": "OSError", "os.path.getsize": "OSError", "os.stat": "OSError",
     "os.remove": "OSError", "os.unlink": "OSError", "os.rmdir": "OSError", "os.replace": "OSError", "os.rename": "OSError",
     "os.scandir": "OSError", "shutil.move": "OSError", "shutil.copy": "OSError",
+    # makedirs creates the parents one by one: a concurrent clear() removing a parent in between makes the next
+    # mkdir fail with ENOENT (EEXIST is handled by mkdirp itself: C11.EEXIST)
+    "os.makedirs": "FileNotFoundError", "os.mkdir": "FileNotFoundError",
 }
 RAISING_SELF = {"self._open_item": "OSError", "self._move_item": "OSError"}
 ENTRY = [
